@@ -419,7 +419,7 @@ int main(int argc, char **argv)
         }
         for (i = 0; i < NT; ++i) {
             targ *a = &TA[i];
-            a->tid = i; a->workload = workload; a->seed = vh_rand(&r); a->bulk = (workload < 2 && (rep / 5) % 3 == 0);    /* every third repetition of W1/W2 adds requests of 64 KiB .. 260 KiB */
+            a->tid = i; a->workload = workload; a->seed = vh_rand(&r); a->bulk = (workload < 2 && (rep / 5) % 4 == 0);    /* W1/W2 add requests of 64 KiB .. 260 KiB in every fourth block of five repetitions (walks through all back-end caps) */
             if (workload == 1) a->seed = vh_seed * 131 + rep;      /* all threads do the same reads on the shared objects with private buffers */
             vh_rng_seed(&a->yr, a->seed, 0x19, (uint64_t)i);
             if (workload == 0) {
